@@ -14,7 +14,7 @@ from __future__ import annotations
 import string
 from typing import Any, Dict, List
 
-from .common import call, same, is_symbolic, PathAbort
+from .common import call, same, is_symbolic, PathAbort, replay_tiers
 
 PROP = "C15"
 
@@ -311,7 +311,7 @@ OUTSIDE = ["definitions that re-register a built-in class under a new symbol", "
 
 def replay(obligation: str, witness):
     from sx.concrete import run_concrete
-    for tier in ("thorough", "quick"):
+    for tier in replay_tiers():
         for ob in obligations(tier):
             if ob.name == obligation:
                 reproduced, msg, _ = run_concrete(ob.harness, witness)
